@@ -29,6 +29,52 @@ type Mut struct {
 	Kind string                `json:"kind"`
 	Sigs []detection.Signature `json:"sigs,omitempty"`
 	ID   string                `json:"id,omitempty"`
+	Meta map[string]string     `json:"meta,omitempty"` // SetMeta: description, source_hash, owner, build
+}
+
+// metaOf folds the SetMeta mutations of a history prefix into the metadata they leave behind.
+func metaOf(hist []Mut) map[string]string {
+	m := map[string]string{}
+	for _, mu := range hist {
+		if mu.Kind == "SetMeta" {
+			for k, v := range mu.Meta {
+				m[k] = v
+			}
+		}
+	}
+	return m
+}
+
+func readMeta(db *pebbledb.PebbleScanner) (map[string]string, error) {
+	md, err := db.GetAllMetadata()
+	if err != nil {
+		return nil, err
+	}
+	m := map[string]string{}
+	if md.Description != "" {
+		m["description"] = md.Description
+	}
+	if md.SourceHash != "" {
+		m["source_hash"] = md.SourceHash
+	}
+	for _, k := range []string{"owner", "build"} {
+		if v, ok := md.Custom[k]; ok {
+			m[k] = v
+		}
+	}
+	return m, nil
+}
+
+func sameMeta(a, b map[string]string) bool {
+	if len(a) != len(b) {
+		return false
+	}
+	for k, v := range a {
+		if b[k] != v {
+			return false
+		}
+	}
+	return true
 }
 
 type quietLogger struct{}
@@ -159,6 +205,9 @@ func apply(db *pebbledb.PebbleScanner, m *storemodel.Model, mu Mut) error {
 		}
 	case "Rebuild":
 		return db.RebuildIndexes()
+	case "SetMeta":
+		return db.SetAllMetadata(&pebbledb.DatabaseMetadata{Description: mu.Meta["description"], SourceHash: mu.Meta["source_hash"],
+			Custom: map[string]string{"owner": mu.Meta["owner"], "build": mu.Meta["build"]}})
 	}
 	return nil
 }
@@ -235,6 +284,14 @@ func genHistory(r *rand.Rand, variant int) []Mut {
 	}
 	if r.Intn(2) == 0 {
 		h = append(h, Mut{Kind: "Rebuild"})
+	}
+	if variant != 2 && r.Intn(2) == 0 {
+		// the database's own metadata record, written twice with different values: one
+		// mutation like any other
+		for gen := 1; gen <= 2; gen++ {
+			h = append(h, Mut{Kind: "SetMeta", Meta: map[string]string{"description": fmt.Sprintf("signature set, generation %d", gen), "source_hash": fmt.Sprintf("hash-%d-%04x", gen, r.Intn(65536)),
+				"owner": []string{"alice", "bob"}[gen-1], "build": fmt.Sprintf("b%d", 100*gen+r.Intn(50))}})
+		}
 	}
 	if variant == 2 {
 		// a store large enough for RebuildIndexes to commit in several chunks
@@ -321,6 +378,23 @@ func runCrash(hist []Mut, mi, n, variant int, expdir string) (v verdict) {
 	}
 	defer db2.Close()
 	kind := hist[mi].Kind
+	// the metadata record is all-old or all-new after any crash (and all-new after an
+	// acknowledged mutation), whichever mutation was running
+	{
+		got, err := readMeta(db2)
+		mb, ma := metaOf(hist[:mi]), metaOf(hist[:mi+1])
+		switch {
+		case err != nil:
+			v.key, v.what = "metadata/unreadable", err.Error()
+			return v
+		case n < 0 && !sameMeta(got, ma):
+			v.key, v.what = "ack-lost/metadata", fmt.Sprintf("%s returned nil, then power was cut: metadata is %v, want %v", kind, got, ma)
+			return v
+		case !sameMeta(got, ma) && !sameMeta(got, mb):
+			v.key, v.what = "half-applied/metadata", fmt.Sprintf("cut at write-op %d (%s) of %s: metadata after reopening is %v, neither the record before (%v) nor after (%v) the mutation", n, v.cutOp, kind, got, mb, ma)
+			return v
+		}
+	}
 	mmAfter, k := storemodel.Battery(db2, model, expdir, nil)
 	v.lookups += k
 	if len(mmAfter) == 0 {
